@@ -62,7 +62,15 @@ def build(name, quiet=True):
     argv, env, rel = _BUILD[name]
     cmd = ['cargo'] + argv
     t0 = time.time()
+    env = dict(env)
+    if 'RUSTFLAGS' in env:
+        env['RUSTFLAGS'] += ' --cfg %s_lines' % GUARD
     p = subprocess.run(cmd, cwd=EXEC_DIR, env=_cargo_env(env), stdout=subprocess.PIPE, stderr=subprocess.STDOUT, text=True)
+    if p.returncode != 0 and 'verif_lines' in p.stdout:
+        # the optional line-function hooks no longer match the tree (private functions refactored): build without them;
+        # the ops then answer 'unsupported' and C17 records that stage as skipped
+        env['RUSTFLAGS'] = env.get('RUSTFLAGS', '--cfg %s' % GUARD).replace(' --cfg %s_lines' % GUARD, '')
+        p = subprocess.run(cmd, cwd=EXEC_DIR, env=_cargo_env(env), stdout=subprocess.PIPE, stderr=subprocess.STDOUT, text=True)
     if p.returncode != 0:
         tail = '\n'.join(p.stdout.splitlines()[-40:])
         raise Inconclusive('build of %s executor failed (cargo exit %d):\n%s' % (name, p.returncode, tail))
